@@ -955,7 +955,28 @@ func dataCycleGuarded(p *Prog, comp []*ssa.Function, in map[*ssa.Function]bool) 
 					}
 				})
 				if looked && updated {
-					return true, "visited set `" + prm.Name() + "` in " + shortName(f) + " is consulted (hit → return) and updated before recursing"
+					// the same set must travel along every edge of the cycle: an edge that hands a fresh set to the
+					// next call restarts cycle detection (e.g. by-value struct hops going through the public entry)
+					for _, g := range comp {
+						for _, site := range callsIn(g) {
+							for _, callee := range p.Callees(site) {
+								if !in[callee] {
+									continue
+								}
+								for ai, cp := range callee.Params {
+									if _, isMap := cp.Type().Underlying().(*types.Map); !isMap || ai >= len(callArgs(site.Common())) {
+										continue
+									}
+									for _, o := range p.origins(callArgs(site.Common())[ai], OriginOpts{}) {
+										if _, fresh := o.(*ssa.MakeMap); fresh {
+											return false, fmt.Sprintf("%s re-enters the cycle at %s with a freshly made visited set: pointers already on the path are forgotten, so data whose pointer cycle runs through this edge recurses until the stack overflows", shortName(g), p.instrPos(site))
+										}
+									}
+								}
+							}
+						}
+					}
+					return true, "visited set `" + prm.Name() + "` in " + shortName(f) + " is consulted (hit → return), updated before recursing and passed along every edge of the cycle"
 				}
 			}
 			if b, ok := prm.Type().Underlying().(*types.Basic); ok && b.Info()&types.IsInteger != 0 {
